@@ -38,6 +38,11 @@ func goInterp(s string) (string, bool) {
 			s = s[1:]
 			continue
 		}
+		if len(s) >= 2 && s[0] == '\\' && s[1] == '\'' { // the IDL's escaped single quote
+			out = append(out, '\'')
+			s = s[2:]
+			continue
+		}
 		c, mb, rest, err := strconv.UnquoteChar(s, '"')
 		if err != nil {
 			return "", false
@@ -50,6 +55,31 @@ func goInterp(s string) (string, bool) {
 		s = rest
 	}
 	return string(out), true
+}
+
+func quoteLike(lit string) string {
+	var sb strings.Builder
+	sb.WriteByte('"')
+	for i := 0; i < len(lit); i++ {
+		switch c := lit[i]; {
+		case c == '\\' && i+1 < len(lit):
+			i++
+			if lit[i] != '\'' {
+				sb.WriteByte('\\')
+			}
+			sb.WriteByte(lit[i])
+		case c == '"':
+			sb.WriteString("\\\"")
+		case c == '\n':
+			sb.WriteString("\\n")
+		case c == '\r':
+			sb.WriteString("\\r")
+		default:
+			sb.WriteByte(c)
+		}
+	}
+	sb.WriteByte('"')
+	return sb.String()
 }
 
 func hexOrDash(s string) string {
@@ -68,7 +98,7 @@ func literalOps(r *vl.Rng, n int, out *vl.Out) []*opLine {
 			continue
 		}
 		seen[s] = true
-		raw := `"` + strings.ReplaceAll(s, `"`, `\"`) + `"` // what onStrBin emits
+		raw := quoteLike(s) // a text of the shape onStrBin emits (quoteLiteral's clauses, re-stated here only to generate inputs)
 		impl := "none"
 		if v, err := strconv.Unquote(raw); err == nil {
 			impl = "ok " + hexOrDash(v)
@@ -82,6 +112,11 @@ func literalOps(r *vl.Rng, n int, out *vl.Out) []*opLine {
 			impl = "ok " + hexOrDash(v)
 		}
 		ls = append(ls, &opLine{text: "UI " + hexOrDash(s), impl: impl, what: "UI", nontrivial: true})
+		// string_literal_value on Go's own functions: the emitted shape is read as the literal's meaning
+		if u := ls[len(ls)-2].impl; u != impl {
+			out.Fail(vl.OracleFail{Key: "literal:" + hexOrDash(s), What: "Go reads the emitted literal differently from the IDL literal's meaning",
+				Input: map[string]string{"literal_hex": hexOrDash(s), "emitted": raw}, Expected: impl, Observed: u})
+		}
 	}
 	return ls
 }
